@@ -139,11 +139,19 @@ def translate_source():
             if f.endswith(".hpp") or f.endswith(".h"):
                 h.update(open(os.path.join(root, f), "rb").read())
     h.update(open(os.path.join(ROOT, "tools/cxx2coq.py"), "rb").read())
+    h.update(open(os.path.join(ROOT, "tools/cxxvec2coq.py"), "rb").read())
     tag = "(* source-hash %s *)" % h.hexdigest()
-    dst = os.path.join(COQ, "gen/Gen.v")
+    dst = os.path.join(COQ, "gen/Gen.v"); dstv = os.path.join(COQ, "gen/GenVec.v")
     with Lock("translate_source"):
-        if os.path.exists(dst) and tag in open(dst).read(200):
+        if os.path.exists(dst) and tag in open(dst).read(200) and os.path.exists(dstv) and tag in open(dstv).read(200):
             return True, "cached"
+        # the SSE / AVX2 kernels
+        tmpv = dstv + ".tmp"
+        rcv, outv = sh([sys.executable, os.path.join(ROOT, "tools/cxxvec2coq.py"), REPO, tmpv], timeout=900)
+        if rcv != 0 or not os.path.exists(tmpv):
+            open(dstv, "w").write(tag + "\n(* translation failed: %s *)\n" % outv[-500:].replace("*)", "* )"))
+        else:
+            open(dstv, "w").write(tag + "\n" + open(tmpv).read()); os.remove(tmpv)
         tmp = dst + ".tmp"
         rc, out = sh([sys.executable, os.path.join(ROOT, "tools/cxx2coq.py"), REPO, tmp], timeout=900)
         if rc != 0 or not os.path.exists(tmp):
@@ -172,9 +180,9 @@ def read_params():
 
 # ---------------------------------------------------------------- prove
 def coq_makefile():
-    if not os.path.exists(os.path.join(COQ, "gen/Gen.v")):
+    if not os.path.exists(os.path.join(COQ, "gen/Gen.v")) or not os.path.exists(os.path.join(COQ, "gen/GenVec.v")):
         translate_source()
-    vs = sorted(f for f in os.listdir(COQ) if f.endswith(".v") and f != "Extract.v") + ["gen/Params.v", "gen/Gen.v"]
+    vs = sorted(f for f in os.listdir(COQ) if f.endswith(".v") and f != "Extract.v") + ["gen/Params.v", "gen/Gen.v", "gen/GenVec.v"]
     txt = "-Q . NTT\n" + "\n".join(vs) + "\n"
     p = os.path.join(COQ, "_CoqProject")
     if not os.path.exists(p) or open(p).read() != txt or not os.path.exists(os.path.join(COQ, "Makefile")):
